@@ -146,6 +146,17 @@ def monitor(m, lines):
         if should and not ok:
             return "QB_LOG_CONF_MAX_LINE_LEN refused %d" % m["value"], None
         return None, None
+    if m["kind"] == "M":
+        # a whole log call ("%s", msg): delivered exactly once, truncated to the limit, trailing newline dropped
+        got = [L_.unhx(l.split(" ")[1]) for l in lines if l.startswith("msg ")]
+        if len(got) != 1:
+            return "log call delivered %d times to the one enabled target" % len(got), None
+        msg, L = m["msg"], m["L"]
+        want = msg[:L - 1] if len(msg) >= L else (msg[:-1] if msg.endswith(b"\n") else msg)
+        if got[0] != want:
+            return "log call with a %d-byte message, limit %d: logger got %r, expected %r" % (
+                len(msg), L, got[0][-60:], want[-60:]), None
+        return None, None
     if m["kind"] == "T":
         o = [l for l in lines if l.startswith("orc ")]
         out = [l for l in lines if l.startswith("out ")]
@@ -245,6 +256,21 @@ def gen_F(rng, wild):
     return m
 
 
+def gen_M(rng):
+    L = rng.choice([1, 2, 3, 8, 64, 511, 512, 513, 600, 4096])
+    q = rng.random()
+    if q < 0.3:
+        ml = rng.choice([0, 0, 1, 2, 5])
+    elif q < 0.85:
+        ml = max(0, L + rng.choice([-3, -2, -1, 0, 1, 2]))
+    else:
+        ml = rng.choice([600, 5000])
+    msg = bytes(rng.choice(b"abcdefghij klmnop.%") for _ in range(ml))
+    if rng.random() < 0.3 and ml:
+        msg = msg[:-1] + b"\n"
+    return {"kind": "M", "L": L, "prio": rng.choice([0, 3, 6, 7]), "msg": msg}
+
+
 def corpus():
     base = {"kind": "T", "ell": 0, "fn": b"main", "file": b"f.c", "lineno": 7, "prio": 6, "tag": None, "sec": 0,
             "nsec": 0, "garbage": "5a", "msg": b"hello"}
@@ -272,6 +298,10 @@ def corpus():
     cs.append({"kind": "F", "L": 512, "fmt": b"%N[%P] " + b"x" * 399})      # modified_format[256] overflow
     cs.append({"kind": "F", "L": 512, "fmt": b"%-8P %5N %H %b %p abc%"})
     cs.append({"kind": "F", "L": 4096, "fmt": b"y" * 5000})
+    cs.append({"kind": "M", "L": 512, "prio": 6, "msg": b""})               # cs_format: str[len - 1] with len = 0
+    cs.append({"kind": "M", "L": 512, "prio": 6, "msg": b"\n"})
+    cs.append({"kind": "M", "L": 8, "prio": 6, "msg": b"0123456789"})
+    cs.append({"kind": "M", "L": 600, "prio": 6, "msg": b"m" * 5000})
     for v in (0, -1, -2147483648, 1, 2, 512, 4096, 4097, 2147483647):
         cs.append({"kind": "ctl", "value": v})
     return cs
@@ -282,6 +312,8 @@ def script_of(m):
         return ["C %d" % m["value"]]
     if m["kind"] == "F":
         return ["F %d %s" % (m["L"], hx(m["fmt"]))]
+    if m["kind"] == "M":
+        return ["M %d %d %s" % (m["L"], m["prio"], hx(m["msg"]))]
     return ["T %d %d %s %s %s %s %d %d %s %d %d %s" % (
         m["L"], m["ell"], hx(m["fmt"]), hx(m["msg"]), hx(m["fn"]), hx(m["file"]), m["lineno"], m["prio"],
         "N" if m["tag"] is None else hx(m["tag"]), m["sec"], m["nsec"], m["garbage"])]
@@ -348,6 +380,8 @@ def run(ctx):
         metas.append(gen_T(rng, i % 5 == 4))
     for i in range(nF):
         metas.append(gen_F(rng, i % 5 == 4))
+    for i in range(nF):
+        metas.append(gen_M(rng))
     for i in range(30):
         metas.append({"kind": "ctl", "value": rng.choice([rng.randint(-5, 5), rng.randint(4090, 4100),
                                                           rng.randint(-2 ** 31, 2 ** 31 - 1), rng.randint(1, 4096)])})
@@ -399,11 +433,11 @@ def run(ctx):
                  "monitor": "props/C13.py: line_spec / static_spec (independent Python statement of the documented "
                             "directives) + NUL inside the limit; ASan with an exact-size output buffer",
                  "presupposes_fixes": ["fixes/C13-1-target-format-edges.patch", "fixes/C13-2-format-set-buffer.patch",
-                                       "fixes/C13-3-max-line-len-range.patch"]}
+                                       "fixes/C13-3-max-line-len-range.patch", "fixes/C13-4-cs-format-empty.patch"]}
     res.assumptions = ["time-stamp texts (%t, %T), pid, host name and the tags text are oracles recorded from the run",
                        "the output buffer has exactly max_line_length bytes (callers allocate at least that)",
-                       "cs_format / qb_do_extended (message expansion in lib/log.c) are not modelled: covered only by "
-                       "the sanitizer run of C12's harness"]
+                       "cs_format (message expansion in lib/log.c) is not modelled in Coq: whole log calls are checked on the "
+                       "implementation only (monitor + sanitizer, 'M' cases); qb_do_extended is not covered"]
     return res
 
 
